@@ -187,6 +187,19 @@ pub fn c10(cfg: &J) {
         sink.send(call(k, *w));
         sent_before_flush.push((k.clone(), *w));
     }
+    if cfg["cancelled_flush"].as_bool().unwrap_or(false) {
+        // a flush request that is abandoned: polled once, then dropped (a timeout or select! around
+        // `flush()`); the sink stays usable - one more entry, and the awaited flush below
+        ops.touch();
+        {
+            let mut fut = std::pin::pin!(sink.flush());
+            let mut cx = std::task::Context::from_waker(std::task::Waker::noop());
+            let _ = fut.as_mut().poll(&mut cx);
+        }
+        ops.touch();
+        sink.send(call("late", 9));
+        sent_before_flush.push(("late".to_string(), 9));
+    }
     if flush {
         // a completed flush has seen everything this thread sent before it
         let dummy: crate::rec::Log = Arc::new(Mutex::new(Vec::new()));
@@ -250,6 +263,11 @@ pub fn c10(cfg: &J) {
         let x = need.entry(k.clone()).or_default();
         x.0 += 1;
         x.1 += w;
+    }
+    if cfg["cancelled_flush"].as_bool().unwrap_or(false) {
+        let x = need.entry("late".to_string()).or_default();
+        x.0 += 1;
+        x.1 += 9;
     }
     if have != need {
         mc::violation("inputs-not-conserved", format!("emitted per key (count, weight) {have:?} but the inputs were {need:?}: {end:?}"));
